@@ -280,7 +280,9 @@ def oracle_many_fields(ctx):
             if +got != +exp:
                 miss = list((exp - got).items())
                 extra = list((got - exp).items())
-                if nitems > 200 and not extra:
+                # the known finding is exactly "the first 200 stored items are printed, the rest dropped": one missing line per dropped item
+                # (values of the corpus' big entries are single-line), i.e. nitems - 200 missing lines; any other shortfall is a different defect
+                if nitems > 200 and not extra and sum(c for _, c in miss) == nitems - 200:
                     failures.append({'signature': 'journal:fields-beyond-200-dropped', 'case': {**desc, 'stored_items': nitems},
                                      'detail': f'entry {r.get("__CURSOR")} stores {nitems} items; {sum(c for _, c in miss)} field line(s) missing from the export rendering, e.g. {miss[:2]}'})
                 else:
